@@ -80,6 +80,16 @@ pub fn gen_cases(rep: &mut Report, n: usize, seed: u64, out: &str, ascii_ok: boo
             }
         }
     }
+    // long literals around nested look-arounds (byte-literal lowering is a default-build strategy: the utf16 build
+    // does not lower, so a wrong chunk order shows as a difference between builds)
+    for (pat, fl, hays) in crate::scope::nested_look_literal_cases() {
+        let pc: Vec<u32> = pat.chars().map(|c| c as u32).collect();
+        for h in hays {
+            let hc: Vec<u32> = h.chars().map(|c| c as u32).collect();
+            writeln!(f, "{} {} {} 0", if fl.is_empty() { "-" } else { fl }, ast::cps_hex(&pc), ast::cps_hex(&hc)).unwrap();
+            rep.case(&format!("{:?}{:?}", pc, hc), true);
+        }
+    }
     f.flush().unwrap();
 }
 
